@@ -632,9 +632,13 @@ DefaultFromCalls(c) ==
            fs == IF c.kind = "union" THEN {UnionDefaultField(c)} ELSE FieldIdx(c, v)
        IN { i \in fs : c.variants[v].fields[i].ty = "P" /\ c.variants[v].fields[i].dflt \in LitKinds }
 
+\* the fields' initialisers run in declaration order (a struct literal evaluates in the order it is written, so a
+\* generated literal that lists the fields in another order changes what impure initialisers produce)
+InDeclOrder(order) == \A i \in 1..(Len(order) - 1) : order[i] < order[i + 1]
 PropDefault(c, e) ==
   /\ e.res = DefaultPlan(c)
   /\ e.froms = Cardinality(DefaultFromCalls(c))
+  /\ ~c.opts.dexpr => InDeclOrder(e.order)        \* (a type-level expression is the user's own code)
   /\ c.opts.newfn => e.newres = e.res
 
 
